@@ -112,8 +112,8 @@ type treeRec struct {
 	pj     map[string]pjRec
 	pjText map[string]string // "<dir>/package.json" -> text
 	root   string            // set when materialised
-	once sync.Once
-	err  error
+	once   sync.Once
+	err    error
 }
 
 type question struct {
@@ -393,7 +393,7 @@ type runState struct {
 	mu     sync.Mutex
 }
 
-var reLabelCall = regexp.MustCompile(`\bL\((?:"([^"]+)"|IF [^"]*THEN "([^"]+)" ELSE "([^"]+)")`)
+var reLabelCall = regexp.MustCompile(`\bL\((?:"([^"]+)"|IF .*? THEN "([^"]+)" ELSE "([^"]+)")`)
 
 func Run(r *core.Run) {
 	st := &runState{r: r, trees: map[int]*treeRec{}}
@@ -502,12 +502,15 @@ func Run(r *core.Run) {
 		return
 	}
 	base = filepath.Join(base, "trees")
-	for dir := filepath.Dir(base); dir != "/" && dir != "."; dir = filepath.Dir(dir) {
+	for dir := filepath.Dir(base); dir != "."; dir = filepath.Dir(dir) {
 		for _, n := range []string{"package.json", "node_modules"} {
 			if _, err := os.Stat(filepath.Join(dir, n)); err == nil {
 				r.Infra("assumption broken: %s exists above the scratch directory", filepath.Join(dir, n))
 				return
 			}
+		}
+		if dir == "/" {
+			break
 		}
 	}
 	byTree := map[int][]*question{}
@@ -546,7 +549,7 @@ func Run(r *core.Run) {
 	// 4. compare
 	taken := map[string]int64{}
 	outcome := map[string]int64{}
-	var agreeFile []*question
+	sampled := map[string]int{}
 	for _, q := range selected {
 		t := st.trees[q.Ti]
 		if t.root == "" || !q.hasNode || !q.esb.asked {
@@ -565,10 +568,8 @@ func Run(r *core.Run) {
 			}
 		}
 		r.Case(q.id, nontrivial)
-		if verdict == "agree-file" {
-			agreeFile = append(agreeFile, q)
-		}
-		if nontrivial && q.Qi%7 == 0 {
+		if nontrivial && sampled[t.Fam] < 1 && q.T == "file" {
+			sampled[t.Fam]++
 			r.Sample(st.describe(t, q, q.esb))
 		}
 	}
@@ -837,7 +838,7 @@ func (st *runState) compare(t *treeRec, q *question, a esbAnswer, via string) st
 		}
 		return map[string]interface{}{
 			"spec": "Resolve.tla", "scenario": q, "expected": q.T + ":" + q.V, "native": q.node, "via": via, "family": t.Fam,
-			"observed": map[string]interface{}{"path": t.rel(a.Path), "error": a.Err},
+			"observed":     map[string]interface{}{"path": t.rel(a.Path), "error": a.Err},
 			"package_json": files, "files": t.Files, "links": t.Links,
 			"config": map[string]interface{}{"platform": "node", "mainFields": []string{"main"}, "conditions": q.Conds, "bundle": true},
 		}
